@@ -26,7 +26,7 @@ JWS_NAMES = ["none"] + J.ALL_ALGS
 JWE_ALG_NAMES = ["RSA1_5", "RSA-OAEP", "RSA-OAEP-256", "A128KW", "A192KW", "A256KW", "dir", "ECDH-ES", "ECDH-ES+A128KW",
                  "ECDH-ES+A192KW", "ECDH-ES+A256KW", "A128GCMKW", "A192GCMKW", "A256GCMKW", "PBES2-HS256+A128KW",
                  "PBES2-HS384+A192KW", "PBES2-HS512+A256KW"]
-WEIRD = ["", "hs256", "HS256 ", "HS257", "DEF", "A128GCM", None, True, 0, 1.5, ["HS256"], {"a": 1}]
+WEIRD = ["", "bogus", "hs256", "HS256 ", "HS257", "DEF", "A128GCM", None, True, 0, 1.5, ["HS256"], {"a": 1}]
 
 
 def usable(name, allow, supported, recommended):
@@ -119,6 +119,7 @@ def run(ctx):
     jwe_gate(ctx)
     jwe_multi_gate(ctx)
     jwe_unknown_names(ctx)
+    jws_unknown_names(ctx)
     jwt_gate(ctx)
     none_alg(ctx)
     # ---------------- (c) history
@@ -278,7 +279,7 @@ def jwe_unknown_names(ctx):
                         tok = R.encrypt(alg, enc, native, b"attack at dawn", header_extra={"zip": name}, serialization=ser)
                     else:
                         tok = R.rewrite_protected(R.encrypt(alg, enc, native, b"attack at dawn", serialization=ser), {slot: name})
-                    for allow in allows:
+                    for allow in allows + [[alg, enc, "DEF", name]]:        # ... and LISTED by the caller although unsupported
                         kw = {} if allow is None else {"algorithms": allow}
                         try:
                             r = jwe.decrypt_compact(tok, key, **kw) if ser == "compact" else jwe.decrypt_json(copy.deepcopy(tok), key, **kw)
@@ -291,7 +292,7 @@ def jwe_unknown_names(ctx):
                                        {"token": tok.decode() if isinstance(tok, bytes) else tok, "key": key.as_dict(), "allow": allow, "slot": slot, "name": name},
                                        f"unknown-name:decrypt:{slot}")
                     # -- producing
-                    for allow in allows:
+                    for allow in allows + [[alg, enc, "DEF", name]]:
                         kw = {} if allow is None else {"algorithms": allow}
                         try:
                             if ser == "compact":
@@ -307,6 +308,61 @@ def jwe_unknown_names(ctx):
                         if out != "UnsupportedAlgorithmError":
                             ctx.report(f"JWE encryption ({ser}) with the unregistered {slot} name {name!r} (allow={allow}): {out}",
                                        {"header": hdr, "allow": allow, "slot": slot, "name": name}, f"unknown-name:encrypt:{slot}")
+
+
+def jws_unknown_names(ctx):
+    """A well-typed name the library does not support in the `alg` slot of a JWS - unlisted, or LISTED by the caller in a
+    superset allow-list (algorithms=[...] or a registry) - makes signing and verification fail with
+    UnsupportedAlgorithmError in every entry point: listing a name does not make it supported."""
+    from joserfc import jws, jwt, rfc7797
+    rng = ctx.rng
+    names = ["bogus", "XS999", "", " ", "hs256", "HS256 ", "HS256\n", "HS257", "A128KW", "DEF"]
+    if ctx.tier == "quick":
+        names = names[:3] + rng.sample(names[3:], 3)
+    key = J.make_key("oct32", private=True)
+    native = J.native_priv("oct32")
+    for name in names:
+        hdr = {"alg": name}
+        hseg = J.b64u(J.jwsref.spell(hdr, rng, 0))
+        pseg = J.b64u(b'{"iss":"a"}')
+        sig = J.b64u(J.jwsref.sign("HS256", native, hseg + b"." + pseg))
+        tok = hseg + b"." + pseg + b"." + sig
+        flat = {"protected": hseg.decode(), "payload": pseg.decode(), "signature": sig.decode()}
+        general = {"payload": pseg.decode(), "signatures": [{"protected": hseg.decode(), "signature": sig.decode()}]}
+        for allow in (None, ["HS256"], ["HS256", name], list(JWS_NAMES) + [name], [name]):
+            for via in ("algorithms", "registry"):
+                def kw(kind="jws"):
+                    if allow is None:
+                        return {}
+                    if via == "algorithms":
+                        return {"algorithms": allow}
+                    return {"registry": (rfc7797.JWSRegistry if kind == "7797" else jws.JWSRegistry)(algorithms=allow)}
+                calls = {
+                    "deserialize_compact": lambda: jws.deserialize_compact(tok, key, **kw()),
+                    "deserialize_json-flat": lambda: jws.deserialize_json(copy.deepcopy(flat), key, **kw()),
+                    "deserialize_json-general": lambda: jws.deserialize_json(copy.deepcopy(general), key, **kw()),
+                    "7797.deserialize_compact": lambda: rfc7797.deserialize_compact(tok, key, **kw("7797")),
+                    "7797.deserialize_json": lambda: rfc7797.deserialize_json(copy.deepcopy(flat), key, **kw("7797")),
+                    "jwt.decode": lambda: jwt.decode(tok, key, **kw()),
+                    "serialize_compact": lambda: jws.serialize_compact(dict(hdr), b"p", key, **kw()),
+                    "serialize_json-flat": lambda: jws.serialize_json({"protected": dict(hdr)}, b"p", key, **kw()),
+                    "serialize_json-general": lambda: jws.serialize_json([{"protected": dict(hdr)}], b"p", key, **kw()),
+                    "7797.serialize_compact": lambda: rfc7797.serialize_compact(dict(hdr), b"p", key, **kw("7797")),
+                    "7797.serialize_json": lambda: rfc7797.serialize_json({"protected": dict(hdr)}, b"p", key, **kw("7797")),
+                    "jwt.encode": lambda: jwt.encode(dict(hdr), {"iss": "a"}, key, **kw()),
+                }
+                for cname, fn in calls.items():
+                    try:
+                        r = fn()
+                        out = f"returned {str(r)[:80]}"
+                    except Exception as e:  # noqa: BLE001
+                        out = err_name(e)
+                    listed = allow is not None and name in allow
+                    ctx.count("jws-unknown-name", (name, repr(allow), via, cname), True, f"{'listed' if listed else 'unlisted'}:{out if not out.startswith('returned') else 'RETURNED'}")
+                    if out != "UnsupportedAlgorithmError":
+                        ctx.report(f"{cname} with the unsupported alg name {name!r} ({via}={allow}): {out}",
+                                   {"call": cname, "token": tok.decode(), "header": hdr, "allow": allow, "via": via, "key": key.as_dict()},
+                                   f"unknown-name:jws:{'listed' if listed else 'unlisted'}")
 
 
 def jwe_multi_gate(ctx):
